@@ -164,7 +164,8 @@ EXTRA_MORE = {
     'C02': [('bounded-offered-lengths', _mk('offered_lengths', 'sources of 0,1,2,5,8 examples; lazy apply (slice / eager filter / tile / shuffle), filter, catch, unbatch, reshuffle, local shuffle, prefetch, dynamic buckets, each also under map / batch / local shuffle: len() is refused or equals the iteration count')),
             ('bounded-numpy-indices', _mk('numpy_indices', '18 pipelines over 300 examples, 28 boundary indices, np.int8/uint8/int16 (quick) plus uint16/int32/int64 (thorough): ds[dtype(i)] equals ds[int(i)]'))],
     'C04': [('bounded-parallel-equals-sequential', _mk('parallel_equals_sequential', 'thread backend; n in {0,1,2,5,9} (.. 12), workers 1..2 (3), buffers 1,2,4 (1..7); map(num_workers), prefetch, seeded reshuffle / shared-reshuffle tile below prefetch, stacked; values and items; 3 epochs; lengths'))],
-    'C11': [('bounded-diskcache-lifecycles', _mk('diskcache_lifecycles', 'cache_dir given / None x clear x {copy outlives original, original outlives copy, no copy} x {0, 2, all of 4 examples read}; release by garbage collection; reopen with reuse=False (refused) and reuse=True (no recomputation)'))],
+    'C11': [('bounded-diskcache-kill-points', _mk('diskcache_kill_points', 'a forked child populating 12 examples is killed (SIGKILL) after 0, 20, 50, 90 ms (0..150 ms in 10 ms steps); reopen with reuse=True: all values correct, stored ones not recomputed')),
+            ('bounded-diskcache-lifecycles', _mk('diskcache_lifecycles', 'cache_dir given / None x clear x {copy outlives original, original outlives copy, no copy} x {0, 2, all of 4 examples read}; release by garbage collection; reopen with reuse=False (refused) and reuse=True (no recomputation)'))],
     'C13': [('bounded-prefetch-determinism', _mk('parallel_equals_sequential', 'as for C04: seeded per-epoch reshuffles below prefetch / parallel map reproduce the sequential epochs'))],
     'C09': [('bounded-isolation-more', _mk('isolation_more', 'example shapes dict / tuple / namedtuple / list with mutable parts; pickle, copy, wu, memory and disk cache; mutation inside a running first-epoch loop, over items(), through a copy, after an aborted epoch, after the next example was requested; re-read by iteration, index, copy')),
             ('bounded-isolation', _mk('isolation', 'new/from_list in pickle, copy, wu mode and memory/disk cache; 7 access paths, miss and hit, nested in-place mutations'))],
